@@ -125,6 +125,33 @@ def run(repo: Repo, rep: Report, tier: str) -> None:
                         rep.violation("R9.1", sub, f"{fn.fq}|unordered-iteration|{norm(it)[:60]}|{how}",
                                       f"iteration order of an unordered collection reaches generated output: {reason}. Set order depends on "
                                       "PYTHONHASHSEED, so two runs can emit different code", loc)
+    # sorted(<unordered>, key=K): deterministic only if K cannot tie (ties keep the set's iteration order)
+    n_keyed = 0
+    for mn in live:
+        mod = repo.modules[mn]
+        for fn in mod.functions.values():
+            if "<locals>" in fn.qualname:
+                continue
+            for x in own_nodes(fn.node):
+                if not (isinstance(x, ast.Call) and dotted(x.func) == "sorted" and x.args):
+                    continue
+                key = next((k.value for k in x.keywords if k.arg == "key"), None)
+                if key is None:
+                    continue
+                k = _unordered_kind(st, fn, x.args[0])
+                if k is None:
+                    continue
+                n_keyed += 1
+                sub = f"{mod.relpath}:{fn.qualname} `{norm(x)[:60]}` ({k})"
+                why = _key_cannot_tie(key)
+                if why:
+                    rep.ok("R9.1", sub, f"sort key cannot tie: {why}", fn.loc(x))
+                else:
+                    rep.violation("R9.1", sub, f"{fn.fq}|sorted-key-can-tie|{norm(key)[:50]}",
+                                  f"the elements of an unordered collection are sorted by `{norm(key)[:50]}`, which two different elements can share (e.g. a name that is a "
+                                  "prefix of another one found at the same offset): ties keep the set's iteration order, which depends on PYTHONHASHSEED, so two runs "
+                                  "can emit parameters in different order", fn.loc(x))
+    rep.count("R9.1:keyed_sorts_of_unordered", n_keyed)
     rep.count("R9.1:unordered_iteration_sites", n_iter)
     rep.require(n_iter >= 12, f"R9.1: only {n_iter} iterations over unordered collections recognised (floor 12) - type inference lost the import collector?")
     ic = repo.cls("context.import_collector:ImportCollector")
@@ -377,6 +404,40 @@ def _unordered_kind(st: SetTypes, fn: Function, it: ast.AST) -> Optional[str]:
     if isinstance(it, ast.Call) and isinstance(it.func, ast.Attribute) and it.func.attr in ("items", "keys", "values") and not it.args:
         if st.kind(fn, it.func.value) == DICT_OF_SET:
             return f"dict-of-set .{it.func.attr}()"
+    return None
+
+
+def _key_cannot_tie(key: ast.AST) -> Optional[str]:
+    """why a sort key is injective on the elements (None when it is not known to be)"""
+    if not isinstance(key, ast.Lambda) or len(key.args.args) != 1:
+        return None
+    v = key.args.args[0].arg
+    b = key.body
+    if isinstance(b, ast.Name) and b.id == v:
+        return "the element itself"
+    if isinstance(b, ast.Tuple) and b.elts and isinstance(b.elts[-1], ast.Name) and b.elts[-1].id == v:
+        return "ties are broken by the element itself (last tuple component)"
+    if isinstance(b, ast.Call) and isinstance(b.func, ast.Name) and b.func.id == "str" and len(b.args) == 1 and isinstance(b.args[0], ast.Name) and b.args[0].id == v:
+        return "str(element)"
+    # position of the *delimited* element in a text: `s.index("{" + v + "}")` - distinct delimited tokens cannot start at the same offset
+    if isinstance(b, ast.Call) and isinstance(b.func, ast.Attribute) and b.func.attr in ("index", "find") and len(b.args) == 1:
+        a = b.args[0]
+        parts: List[ast.AST] = []
+
+        def flat(e: ast.AST) -> None:
+            if isinstance(e, ast.BinOp) and isinstance(e.op, ast.Add):
+                flat(e.left)
+                flat(e.right)
+            elif isinstance(e, ast.JoinedStr):
+                for p_ in e.values:
+                    parts.append(p_.value if isinstance(p_, ast.FormattedValue) else p_)
+            else:
+                parts.append(e)
+
+        flat(a)
+        if len(parts) == 3 and all(isinstance(parts[i], ast.Constant) and isinstance(parts[i].value, str) and parts[i].value for i in (0, 2)) \
+                and isinstance(parts[1], ast.Name) and parts[1].id == v:
+            return "offset of the element wrapped in delimiters (distinct tokens cannot share an offset)"
     return None
 
 
